@@ -834,6 +834,11 @@ def run(ctx):
             reqs.append(f"twinsurr_kw {cbits} {dim} {delay} {enc_num(thr)} {md_eff} {gseed} "
                         f"{enc_vec(draws)} {enc_mat(data)}")
             impl.append("raise:IndexError" if got == "raise:ValueError" else got)
+            # round 5: the whole method on the source's expressions throughout (walk kernel included)
+            reqs.append(f"twinsurr_src {cbits} {dim} {delay} {enc_num(thr)} {md_eff} {gseed} "
+                        f"{enc_vec(draws)} {enc_mat(data)}")
+            impl.append("raise:IndexError" if got == "raise:ValueError" else got)
+            ctx.count("gen:Surrogates.twin_surrogates-source-level")
             if rng.random() < 0.2:
                 reqs.append(f"twinsurr_k {dim} {delay} {enc_num(thr)} {md_eff} {gseed} {enc_vec(draws)} "
                             f"{enc_mat(data)}")
@@ -959,6 +964,9 @@ def run(ctx):
             if np.isfinite(embv).all() and np.isfinite(np.asarray(out, dtype=float)).all():
                 reqs.append(f"rp_twinsurr {md_eff} {ns_eff} {enc_vec(draws)} {enc_imat(R)} {enc_mat(embv)}")
                 impl.append(enc_mats(np.asarray(out, dtype=float)))
+                reqs.append(f"rp_twinsurr_src {md_eff} {ns_eff} {enc_vec(draws)} {enc_imat(R)} {enc_mat(embv)}")
+                impl.append(enc_mats(np.asarray(out, dtype=float)))
+                ctx.count("gen:RecurrencePlot.twin_surrogates-source-level")
                 ctx.count("gen:RecurrencePlot.twin_surrogates-whole-method")
             if rng.random() < 0.3:
                 reqs.append(f"rp_twins {md_eff} {enc_imat(R)}")
